@@ -294,6 +294,30 @@ def _pair_verdicts(specs, state, pairs):
     return out
 
 
+def _aabb_tags(specs, state, frames):
+    """Which of the given frames have a journalled AABB that does not enclose the shape (per closed-form support values)?
+    Used to attribute a missed detection to a defective aabb() of one collider kind (known finding F2)."""
+    tags = set()
+    for f in frames:
+        spec = specs.get(f)
+        if spec is None or f not in state:
+            continue
+        T = state[f]["tm"]
+        box = state[f]["aabb"]
+        L = geom.scale_L([(spec, T)])
+        for i in range(3):
+            d = np.zeros(3)
+            d[i] = 1.0
+            try:
+                hi = geom.support_value(spec, T, d)
+                lo = -geom.support_value(spec, T, -d)
+            except Exception:
+                continue
+            if not (box[i][1] >= hi - 1e-9 * L and box[i][0] <= lo + 1e-9 * L):
+                tags.add("aabb_too_small:" + spec["kind"])
+    return sorted(tags)
+
+
 def judge_c19(plan, jr, prop="C19"):
     """C19 on World R: self_collision.detect / detect_any are narrow-phase entry points. Every gjk call they make runs
     under the support-evaluation clock; any exception, budget overrun or non-termination is a violation (also for
@@ -382,15 +406,26 @@ def judge(plan, jr, prop="C06"):
                     return [_v(prop, "R.detect.keys", k, "detect() reports frames %s, colliders are %s" % (sorted(c), fr))]
                 marked = {f for f, val in c.items() if val}
                 if not must <= marked:
-                    return [_v(prop, "R.detect.missed", k, "detect() does not mark %s although the all-pairs narrow "
-                               "phase finds it clearly colliding with a frame outside its whitelist" % sorted(must - marked))]
+                    v = _v(prop, "R.detect.missed", k, "detect() does not mark %s although the all-pairs narrow "
+                           "phase finds it clearly colliding with a frame outside its whitelist" % sorted(must - marked))
+                    involved = set()
+                    for f in must - marked:
+                        involved.add(f)
+                        involved.update(g for g in fr if verdict.get((f, g)) == "colliding")
+                    v["tags"] = _aabb_tags(specs, state, involved)
+                    return [v]
                 if not marked <= may:
                     return [_v(prop, "R.detect.spurious", k, "detect() marks %s although every frame it could collide "
                                "with is clearly apart or mutually whitelisted" % sorted(marked - may))]
             else:
                 if must and not o["any"]:
-                    return [_v(prop, "R.detect_any.missed", k, "detect_any() is False although %s clearly collide(s) "
-                               "with a frame outside its whitelist" % sorted(must))]
+                    v = _v(prop, "R.detect_any.missed", k, "detect_any() is False although %s clearly collide(s) "
+                           "with a frame outside its whitelist" % sorted(must))
+                    involved = set(must)
+                    for f in must:
+                        involved.update(g for g in fr if verdict.get((f, g)) == "colliding")
+                    v["tags"] = _aabb_tags(specs, state, involved)
+                    return [v]
                 if not may and o["any"]:
                     return [_v(prop, "R.detect_any.spurious", k, "detect_any() is True although no frame can collide")]
     return []
